@@ -1093,3 +1093,11 @@ Qed.
 Corollary solution_is_value : forall n st pa M, solves n st pa M ->
   forall v w, value n st pa v = Some w -> M v = Some w.
 Proof. intros n st pa M Hsol v w. apply (solution_extends_value n st pa M Hsol). Qed.
+
+(* ============================================================================================ K. name-clash repairs *)
+(* once both name-clash repairs are in the code (model switches fixed_D22, fixed_D22b) the guard of C01_full holds of
+   every network: C01_full is then unconditional (proved generically in the switches, not by computation) *)
+Lemma guard_when_names_fixed : fixed_D22 = true -> fixed_D22b = true -> forall n, guard n = true.
+Proof.
+  intros H1 H2 n. unfold guard, guard_names, guard_labels. rewrite H1, H2. reflexivity.
+Qed.
